@@ -548,7 +548,7 @@ def run_c08(rep, rng, tier):
     meta = []
     for _ in range(n):
         d = gen_desc(rng, max_decls=6)
-        kind = rng.choice(["valid", "forward", "self", "undeclared", "miskind", "valid"])
+        kind = rng.choice(["valid", "forward", "self", "undeclared", "othername", "valid"])
         structs = [dc for dc in d.decls if dc["k"] == "struct"]
         wrap = lambda t: rng.choice([t, ("arr", t, 2), ("dyn", t), ("opt", t), ("opt", ("arr", ("dyn", t), 3))])
         bad_name = None
@@ -564,9 +564,40 @@ def run_c08(rep, rng, tier):
                 later = [dc for dc in d.decls[d.decls.index(holder) + 1:] if dc["k"] in ("struct", "enum")]
                 if later:
                     bad_name = rng.choice(later)["name"]
-            elif kind == "miskind":
-                # a reference by a name that is declared *later* as the other kind of type than first lookup finds
-                bad_name = None
+            elif kind == "othername":
+                # a name that *is* declared earlier, but is not a type: binding alias or bound struct's binding name,
+                # service, device, method, enumerator, field, signal, protocol word
+                pool = []
+                for dc in d.decls[:d.decls.index(holder)]:
+                    if dc["k"] == "impl":
+                        pool += [dc["alias"]] if dc["alias"] else []
+                        pool += [it[1] for it in dc["items"] if it[0] == "signal"] + [dc["protocol"]]
+                    elif dc["k"] == "service":
+                        pool += [dc["name"]] + [m["name"] for m in dc["methods"]]
+                    elif dc["k"] == "device":
+                        pool += [dc["name"]]
+                    elif dc["k"] == "enum":
+                        pool += [it[0] for it in dc["items"]]
+                    elif dc["k"] == "struct":
+                        pool += [f["name"] for f in dc["fields"]]
+                declared = {dc["name"] for dc in d.decls if dc["k"] in ("struct", "enum")}
+                pool = [x for x in pool if x not in declared and x not in RESERVED]
+                aliases = [dc["alias"] for dc in d.decls[:d.decls.index(holder)]
+                           if dc["k"] == "impl" and dc["alias"] and dc["type"] in declared and dc["alias"] not in declared]
+                if aliases and rng.random() < 0.6:
+                    pool = aliases
+                elif not aliases and rng.random() < 0.5:
+                    pool = []
+                if not pool:
+                    # make sure the case exists: put an aliased binding of an earlier struct in front of the holder
+                    earlier = [dc for dc in d.decls[:d.decls.index(holder)] if dc["k"] == "struct"]
+                    if earlier:
+                        alias = "Alias" + str(rng.randint(0, 99))
+                        d.decls.insert(d.decls.index(holder), {"k": "impl", "protocol": "can", "type": rng.choice(earlier)["name"],
+                                                               "alias": alias, "items": [("field", "id", ("num", "7"))]})
+                        pool = [alias]
+                if pool:
+                    bad_name = rng.choice(pool)
             if bad_name:
                 holder["fields"].insert(rng.randint(0, len(holder["fields"])),
                                         {"name": "ref", "id": 77, "type": wrap(("named", bad_name)), "params": []})
